@@ -12,7 +12,7 @@ RULE = ("full wallet W from a random seed x both networks; export node E at a ra
         "allowed above E); ALL six public version prefixes over the run; watch-only wallet V = from_extended_key(E.xpub(v)); "
         "non-hardened sub-paths of length 0..5 with edge indexes; five address kinds; every string leaf V returns is "
         "classified by an independent decoder; distinct = distinct (monitor, case) digests"
-        " EXTENSIONS: + watch-only wallets built on caller-parsed nodes (string, bytes, streams, default network flag), the full wallet asked for the private data of the same node first, listings ending at 2^31, 2^18+600 further derivations on the parent of held watch-only children (fast mode), one public node-level listing call of K-1 .. 2K+1 rows for every harvested threshold K")
+        " EXTENSIONS: + watch-only wallets built on caller-parsed nodes (string, bytes, streams, default network flag), the full wallet asked for the private data of the same node first, listings ending at 2^31, 2^18+600 further derivations on the parent of held watch-only children (fast mode), one public node-level listing call of K-1 .. 2K+1 rows for every harvested threshold K, listings holding a hardened child number anywhere (ascending, stepped, descending) refused, short listings across every power of two")
 LEVEL_TEXT = ("For each (W, E, version) the real watch-only wallet's nodes, addresses and extended public keys are compared "
               "with the reference derivation below E (which equals what the full wallet computes, also cross-checked on the "
               "real full wallet); private-data requests must raise or be None; hardened derivation must raise; every string "
@@ -172,7 +172,19 @@ def judge_triple(ctx, case):
             except Exception:  # noqa
                 pass
         ctx.judge("no_private", not pb, dict(case, sub=sub), "errors / None", pb, cls="priv|" + cls_base, mech="C14.no_private." + (pb[0][0] if pb else ""))
-        # hardened refusal below vn
+        # hardened refusal below vn: listings whose interval holds a hardened child number in ANY position - first, last, in the
+        # middle; ascending, stepped, descending (newest first) from above 2^31 into the normal range
+        for iv in ((H, H + 2), (H - 2, H + 1), (H + 1, H - 3, -1), (H, H - 2, -1), (H + 4, H - 4, -2), (2 * H - 1, H - 2, -(H // 2)), (H - 3, H + 6, 4)):
+            try:
+                rows = vn.generate_children(interval=iv)
+                hard = [r_ for r_ in rows if r_.index >= H]
+                ok, obs = not hard, ["%s" % r_ for r_ in hard[:3]] or "no hardened row"
+                if not hard and any(i_ >= H for i_ in range(*iv)):
+                    ok, obs = False, "listing of %d rows returned for an interval that holds hardened child numbers" % len(rows)
+            except Exception as e:  # noqa
+                ok, obs = True, e
+            ctx.judge("hardened_refused", ok, dict(case, sub=sub, interval=list(iv), via="generate_children"), "raise", obs,
+                      cls="hard|listing|%s|%s" % ("desc" if len(iv) == 3 and iv[2] < 0 else "asc", cls_base), mech="C14.hardened_returned")
         for hi in (H, H + 1, 2 * H - 1, H + ctx.rnd.randrange(0, H)):
             for via in ("ckd", "by_path"):
                 try:
@@ -294,6 +306,10 @@ def run(ctx):
     for case in longrun.node_listing_cases(ctx, "pub", gen.rbytes(ctx.rnd, 32)):
         longrun.judge_node_listing(ctx, "long_listing", "C14", case)
     ctx.extra["harvested_thresholds"] = longrun.thresholds()
+    cseed = gen.rbytes(ctx.rnd, 32)
+    for b in range(1, 32):
+        if ctx.mine(b):
+            longrun.judge_carry_listing(ctx, "long_listing", "C14", {"seed": cseed, "testnet": bool(b & 1), "side": "pub", "b": b})
 
 
 def replay(ctx, monitor, case):
@@ -302,6 +318,8 @@ def replay(ctx, monitor, case):
         return judge_capacity(ctx, case)
     if monitor == "long_listing":
         from .. import longrun
+        if "b" in case:
+            return longrun.judge_carry_listing(ctx, "long_listing", "C14", case)
         return longrun.judge_node_listing(ctx, "long_listing", "C14", case)
     case.pop("sub", None), case.pop("index", None), case.pop("via", None), case.pop("interval", None), case.pop("looked_up_first", None)
     judge_triple(ctx, case)
